@@ -94,3 +94,31 @@ def specs_masks(tier):
     s = [(BM, "unit_masks", {"variant": v, "nb": nb, "hermitian": h, "timeout_ms": t}) for v, nb, h in cfg]
     s.append((BM, "unit_masks", {"variant": "tuple", "nb": 2, "hermitian": None, "timeout_ms": t, "canary": True}))
     return s
+
+
+NF_ = "contracts.nof"
+
+
+def specs_nof(tier):
+    t = 120000 if tier == "thorough" else 60000
+    layouts_op = [["boson"], ["ladder"], ["spin"], ["fermion"], ["boson", "fermion"], ["fermion", "fermion"], ["boson", "ladder", "spin", "fermion"]]
+    layouts_small = [["boson"], ["fermion"], ["boson", "fermion"], ["boson", "ladder", "spin", "fermion"]]
+    layouts_mul = [["boson"], ["fermion", "fermion"], ["boson", "fermion", "fermion"], ["boson", "ladder", "spin", "fermion"]]
+    if tier == "thorough":
+        layouts_op += [["boson", "boson"], ["fermion", "fermion", "fermion"], ["spin", "fermion", "fermion"], ["ladder", "ladder"]]
+        layouts_small += [["fermion", "fermion", "fermion"], ["spin", "spin"], ["boson", "boson", "ladder", "fermion"]]
+        layouts_mul += [["fermion", "fermion", "fermion", "fermion"], ["spin", "fermion", "fermion"]]
+    s = []
+    for lay in layouts_op:
+        for i in range(len(lay)):
+            s.append((NF_, "unit_multiply_op", {"layout": lay, "op_index": i, "timeout_ms": t}))
+    s.append((NF_, "unit_multiply_op", {"layout": ["boson"], "op_index": 0, "timeout_ms": t, "canary": True}))
+    for lay in layouts_small:
+        s.append((NF_, "unit_multiply_expr", {"layout": lay, "timeout_ms": t}))
+        s.append((NF_, "unit_linearize", {"layout": lay, "timeout_ms": t}))
+        s.append((NF_, "unit_cancel", {"layout": lay, "timeout_ms": t}))
+    s.append((NF_, "unit_multiply_expr", {"layout": ["boson"], "timeout_ms": t, "canary": True}))
+    for lay in layouts_mul:
+        s.append((NF_, "unit_mul", {"layout": lay, "timeout_ms": t}))
+    s.append((NF_, "unit_mul", {"layout": ["fermion", "fermion"], "timeout_ms": t, "canary": True}))
+    return s
